@@ -178,7 +178,12 @@ def gen_dataset(ctx: Ctx, small: list[Any]) -> dict[str, Any]:
             # in the leading / trailing buffer, or with its only in-window instant EXACTLY on a window edge: the root's
             # start on the upper edge (everything else of the trace later), the root's end on the lower edge
             # (everything else earlier) — the window is [T0 + 1 min, T0 + 9 min], both ends inclusive
-            st = T0 + r.choice([0, 10 * MIN - 100, 9 * MIN, MIN - 50])
+            st = T0 + r.choice([0, 10 * MIN - 100, 9 * MIN, MIN - 50, -1])
+        envelope = buffer and kind == "edge" and st == T0 - 1
+        if envelope:
+            # a trace none of whose instants lies inside the window but whose root covers all of it: the root starts in
+            # the leading buffer and ends in the trailing one, its children live in the leading buffer
+            st = T0 + 10
         else:
             st = T0 + 5 * MIN + r.randrange(0, 10**6)
         ids = [f"{jid}.{i}" for i in range(len(ps))]
@@ -189,8 +194,11 @@ def gen_dataset(ctx: Ctx, small: list[Any]) -> dict[str, Any]:
                 parent = f"lost{t}"
             if kind == "names" and i > 0:
                 nm = "othername"
+            en = st + 50 - i
+            if buffer and kind == "edge" and envelope and i == 0:
+                en = T0 + 10 * MIN - 10
             spans.append({"job_name": nm, "job_id": jid, "event_type": ls[i], "event_id": ids[i],
-                          "start_timestamp": st + i, "end_timestamp": st + 50 - i, "application_name": "app",
+                          "start_timestamp": st + i, "end_timestamp": en, "application_name": "app",
                           "parent_event_id": parent})
         shape[jid] = (name, canon(ps, ls))
         kinds.append(kind)
